@@ -2,6 +2,7 @@ package c09
 
 import (
 	"fmt"
+	"math/big"
 	"sync/atomic"
 
 	"github.com/bandprotocol/chain/v3/pkg/bandrng"
@@ -176,6 +177,27 @@ func evalPure(c Case) (res Res) {
 		}
 		if tie {
 			res.saw("pure:max:tie-first-kept")
+		}
+		if total, _ := refTotal(ws); total.BitLen() >= 64 && c.Tries >= 2 {
+			// vacuity label: two tries of this evaluation differ in total weight by 2^63 or more
+			d2 := newRefRng(seed, nonce, pers)
+			var lo, hi *big.Int
+			for t := 0; t < c.Tries; t++ {
+				cand, _ := refChooseSome(d2, ws, c.Cnt)
+				sum := new(big.Int)
+				for _, i := range cand {
+					sum.Add(sum, bigU(ws[i]))
+				}
+				if lo == nil || sum.Cmp(lo) < 0 {
+					lo = sum
+				}
+				if hi == nil || sum.Cmp(hi) > 0 {
+					hi = sum
+				}
+			}
+			if new(big.Int).Sub(hi, lo).BitLen() >= 64 {
+				res.saw("pure:max:tries-differ-by-2^63-or-more")
+			}
 		}
 	}
 	res.Key = fmt.Sprint(got)
